@@ -953,3 +953,19 @@ for _p in ('C01', 'C08'):
                         also=[_ACC_DECL]))
 MUTANTS.append(dict(prop='C01', id='sigloop-local-closure-no-accumulation', file=AUTH, find=_ACC, replace=_ACC_CALL, expect='C01', equiv=False, base=None,
                     also=[(_ACC_DECL[0], _ACC_DECL[1].replace("total_weight = total_weight.checked_add(weight).unwrap();\n        total_weight >= threshold", "let _ = &mut total_weight;\n        weight >= threshold"))]))
+M('C03', 'rf-gwauth7-counter-step-2', AUTH, "            .ok_or(ContractError::WeightOverflow)?;\n        index += 1;", "            .ok_or(ContractError::WeightOverflow)?;\n        index += 2;", 'C03.R1', base='gwauth-7')
+M('C03', 'rf-gwauth7-counter-starts-at-1', AUTH, "    let signers_count = signers.len();\n    let mut index = 0;", "    let signers_count = signers.len();\n    let mut index = 1;", 'C03.R1', base='gwauth-7')
+M('C03', 'rf-gwauth7-ctor-skips-odd-sets', AUTH, "        rotate_signers(&env, &initial_signers.get_unchecked(index), false)?;\n        index += 1;", "        rotate_signers(&env, &initial_signers.get_unchecked(index), false)?;\n        index += 2;", 'C03', base='gwauth-7')
+M('C01', 'rf-gwauth7-sigloop-wrong-vector', AUTH, "        } = proof.signers.get_unchecked(index);", "        } = proof.signers.get_unchecked(0);", 'C01', base='gwauth-7')
+M('C08', 'rf-gwauth8-outdated-accepted', AUTH, "            SignersStanding::Outdated => return Err(ContractError::OutdatedSigners),", "            SignersStanding::Outdated => false,", 'C08.R2', base='gwauth-8')
+M('C01', 'rf-gwauth8-outdated-accepted-c01', AUTH, "            SignersStanding::Outdated => return Err(ContractError::OutdatedSigners),", "            SignersStanding::Outdated => false,", 'C01', base='gwauth-8')
+M('C08', 'rf-gwauth8-retention-strict', AUTH, "        } else if current_epoch - signers_epoch <= previous_signers_retention {", "        } else if current_epoch - signers_epoch < previous_signers_retention {", 'C08', base='gwauth-8')
+M('C09', 'rf-gwauth8-delay-enum-inverted', AUTH, "        if enforce_rotation_delay {\n            Self::Enforced\n        } else {\n            Self::Bypassed\n        }", "        if enforce_rotation_delay {\n            Self::Bypassed\n        } else {\n            Self::Enforced\n        }", 'C09.R1', base='gwauth-8')
+M('C08', 'rf-gwauth8-latest-check-dropped', GW, "                ensure!(is_latest_signers, ContractError::NotLatestSigners);\n                true", "                let _ = is_latest_signers;\n                true", 'C08.R3', base='gwauth-8')
+M('C06', 'rf-gwauth8-operator-path-enforces-nothing', GW, "            RotationAuthority::Operator => false,", "            RotationAuthority::Operator => false,\n            #[allow(unreachable_patterns)]\n            RotationAuthority::LatestSigners if is_latest_signers => false,", 'C06.R3', base='gwauth-8')
+GAS_C = 'contracts/axelar-gas-service/src/contract.rs'
+M('C14', 'rf-gasops7-inbound-direction-swapped', GAS_C, "            Self::Inbound { spender } => (*spender, &this_contract),", "            Self::Inbound { spender } => (&this_contract, *spender),", 'C14.R3', base='gasops-7')
+M('C14', 'rf-gasops7-refund-uses-inbound', GAS_C, "        Flow::Outbound {\n            receiver: &receiver,\n        }\n        .settle(&env, &token);\n\n        event::refunded", "        Flow::Inbound { spender: &receiver }.settle(&env, &token);\n\n        event::refunded", 'C14', base='gasops-7')
+M('C07', 'rf-gasops7-inbound-direction-swapped-c07', GAS_C, "            Self::Inbound { spender } => (*spender, &this_contract),", "            Self::Inbound { spender } => (&this_contract, *spender),", None, base='gasops-7')
+M('C02', 'rf-gwmsg7-approve-known-message', GW, "            if is_new_message {", "            if !is_new_message {", 'C02.R2', base='gwmsg-7')
+M('C02', 'rf-gwmsg7-validate-returns-true', GW, "        is_approved\n    }", "        let _ = is_approved;\n        true\n    }", 'C02.R3', base='gwmsg-7')
